@@ -261,6 +261,78 @@ Section Codec.
     eexists. reflexivity.
   Qed.
 
+  (* ------------------------------------------------------------ truncated heads *)
+  Lemma ensure_read_short cs e k : lenN (concat cs) < k -> ensure_read k (mkR cs e) = Err.
+  Proof.
+    intros H. unfold ensure_read. cbn [chunks fin].
+    destruct (N.ltb_spec k 1); [lia|]. apply ensure_go_short; lia.
+  Qed.
+
+  (* after the data type byte: every strict prefix of lengthed(hint) ++ lengthed(hdr) is rejected by readHead *)
+  Lemma read_head_trunc cs e dt hint hdr s :
+    lenN hint <= max_lengthed -> lenN hdr <= max_lengthed ->
+    write_lengthed hint ++ write_lengthed hdr = concat cs ++ s -> s <> [] ->
+    lenN (write_lengthed hint ++ write_lengthed hdr) < two64 ->
+    read_head enc_known kind_of dt (mkR cs e) = Err.
+  Proof.
+    intros Hs1 Hs2 Hcat Hs Hlt. pose proof max_lengthed_lt.
+    unfold read_head. destruct (negb _); [reflexivity|]. unfold read_encoder.
+    assert (Hp : lenN (concat cs) < two64). { rewrite Hcat, lenN_app in Hlt. lia. }
+    destruct (Nat.lt_ge_cases (length (concat cs)) (length (write_lengthed hint))) as [Hc|Hc].
+    - destruct (app_split_lt _ _ _ _ Hcat Hc) as [l [Hl [Hw _]]].
+      rewrite (read_lengthed_trunc cs e hint l Hw Hl ltac:(lia) Hp). reflexivity.
+    - destruct (app_split_le _ _ _ _ Hcat Hc) as [p3 [Hp3 Hh]].
+      destruct (read_lengthed_ok2 cs e hint p3 Hp3 Hs1 Hp) as [eof [cs3 [E [Hc3 _]]]].
+      rewrite E. destruct eof; [reflexivity|]. destruct (enc_known hint); [|reflexivity].
+      rewrite <- Hc3 in Hh.
+      rewrite (read_lengthed_trunc cs3 e hdr s Hh Hs ltac:(lia)); [reflexivity|].
+      rewrite Hc3. rewrite Hp3, lenN_app in Hp. lia.
+  Qed.
+
+  Lemma request_truncation cs e prefix hint hdr w p s :
+    write_request_head prefix hint hdr = Some w -> lenN prefix = prefix_len ->
+    lenN hint <= max_lengthed -> lenN hdr <= max_lengthed ->
+    w = p ++ s -> s <> [] -> concat cs = p -> lenN w < two63 ->
+    read_request enc_known kind_of (mkR cs e) = Err.
+  Proof.
+    intros Hw Hpl Hs1 Hs2 Hp Hs Hcat Hlt. pose proof two63_lt_two64.
+    destruct (write_request_head_some _ _ _ _ Hw) as [Ez Hw2]. rewrite Hw2 in Hp, Hlt. clear Hw Hw2.
+    unfold read_request, read_prefix.
+    destruct (Nat.lt_ge_cases (length p) (length prefix)) as [Hc|Hc].
+    - rewrite (ensure_read_short cs e prefix_len); [reflexivity|]. rewrite Hcat. unfold lenN in *. lia.
+    - destruct (app_split_le _ _ _ _ Hp Hc) as [p1 [Hp1 Hrest]]. rewrite Hp1 in Hcat.
+      destruct (ensure_read_ok cs e prefix p1 ltac:(rewrite Hpl; reflexivity) Hcat) as [eof [cs1 [E1 [Hc1 _]]]].
+      rewrite Hpl in E1. rewrite E1, Ez. unfold read_request_head, read_data_type.
+      destruct p1 as [|t p2].
+      + rewrite (ensure_read_short cs1 e 1); [reflexivity|]. rewrite Hc1. reflexivity.
+      + cbn [app] in Hrest. injection Hrest as Ht Hrest. subst t.
+        destruct (ensure_read_ok cs1 e [dt_request] p2 ltac:(reflexivity) Hc1) as [eof2 [cs2 [E2 [Hc2 _]]]].
+        change (lenN [dt_request]) with 1 in E2. rewrite E2. destruct eof2; [reflexivity|].
+        cbn [orb N.eqb dt_request Pos.eqb negb].
+        rewrite <- Hc2 in Hrest.
+        rewrite (read_head_trunc cs2 e dt_request hint hdr s Hs1 Hs2 Hrest Hs); [reflexivity|].
+        rewrite !lenN_app in Hlt. rewrite lenN_app. lia.
+  Qed.
+
+  Lemma response_truncation cs e hint hdr p s :
+    lenN hint <= max_lengthed -> lenN hdr <= max_lengthed ->
+    write_response_head hint hdr = p ++ s -> s <> [] -> concat cs = p ->
+    lenN (write_response_head hint hdr) < two63 ->
+    read_response_head enc_known kind_of (mkR cs e) = Err /\ read_body_all enc_known kind_of (mkR cs e) = Err.
+  Proof.
+    intros Hs1 Hs2 Hp Hs Hcat Hlt. pose proof two63_lt_two64.
+    unfold write_response_head in *. unfold read_response_head, read_body_all, read_data_type.
+    destruct p as [|t p2].
+    - rewrite (ensure_read_short cs e 1); [split; reflexivity|]. rewrite Hcat. reflexivity.
+    - cbn [app] in Hp. injection Hp as Ht Hrest. subst t.
+      destruct (ensure_read_ok cs e [dt_response] p2 ltac:(reflexivity) Hcat) as [eof2 [cs2 [E2 [Hc2 _]]]].
+      change (lenN [dt_response]) with 1 in E2. rewrite E2. destruct eof2; [split; reflexivity|].
+      cbn [orb N.eqb dt_response dt_request dt_body Pos.eqb negb].
+      rewrite <- Hc2 in Hrest.
+      rewrite (read_head_trunc cs2 e dt_response hint hdr s Hs1 Hs2 Hrest Hs); [split; reflexivity|].
+      cbn [app] in Hlt. rewrite lenN_cons in Hlt. lia.
+  Qed.
+
   (* ------------------------------------------------------------ totality *)
   Lemma read_head_kind dt r h b k r' :
     read_head enc_known kind_of dt r = Ok (h, b, k, r') ->
